@@ -1,10 +1,10 @@
 CONSTANTS
   Waiters = {1, 2, 3}
-  Start = 14
+  Start = 6
   Mod = 16
-  Signed = FALSE
+  Signed = TRUE
   MaxOps = 6
-  Defects = {"ResetKeepsEntry"}
+  Defects = {"SignLost"}
 SPECIFICATION Spec
 INVARIANTS OwnResponseOnce TableIsWaiting NoAliasing IdRoundTrip
 CHECK_DEADLOCK FALSE
